@@ -36,6 +36,9 @@ func RunTasks(t *testing.T, tape *sim.Tape, m *minify.M, tasks [][]*Op, stick in
 		defer SetWouldBlockSink(nil)
 		for ti, ops := range tasks {
 			for oi, op := range ops {
+				if op.NoYield {
+					continue
+				}
 				if op.W != nil {
 					op.W.P = s.NewPoint(fmt.Sprintf("t%d.o%d.w", ti, oi))
 				}
